@@ -104,12 +104,14 @@ impl CdnClient {
     /// Fetch config file
     #[allow(clippy::unused_async)] // Keep async for consistent public API
     pub async fn fetch_config(&self, config_hash: &str) -> NgdpCacheResult<Bytes> {
-        let path = format!(
-            "config/{}/{}/{}",
-            &config_hash[0..2],
-            &config_hash[2..4],
-            config_hash
-        );
+        // A hash too short (or not sliceable) for the two directory levels is an
+        // error of the caller, not a reason to panic
+        let (Some(first), Some(second)) = (config_hash.get(0..2), config_hash.get(2..4)) else {
+            return Err(NgdpCacheError::NetworkError(format!(
+                "invalid config hash: {config_hash:?}"
+            )));
+        };
+        let path = format!("config/{first}/{second}/{config_hash}");
         self.fetch_with_retry(&path)
     }
 
